@@ -248,8 +248,27 @@ class C13(Check):
             elif m < 0.8:
                 entries[k].pop("command", None)
                 entries[k]["arguments"] = ["gcc", "-c", entries[k].get("file", "x.c") or "x.c", rng.choice(["-I", "-isystem", "-o"])]
-            else:
+            elif m < 0.9:
                 entries[k]["file"] = rng.choice(["", "/", "//", "...", "../..", ".c", "a.c/", "src/a.c/."])
+            else:
+                # rejected by the JSON schema: a property of the wrong type, or an item that is not an object
+                t = rng.randrange(5)
+                if t == 0:
+                    entries[k]["directory"] = 5
+                elif t == 1:
+                    entries[k]["file"] = ["a.c"]
+                elif t == 2:
+                    entries[k].pop("command", None)
+                    entries[k]["arguments"] = "gcc -c a.c"
+                elif t == 3:
+                    entries[k]["output"] = 7
+                else:
+                    entries[k] = "gcc -c a.c"
+        elif rng.random() < 0.15:
+            # both keys: `arguments` wins over `command`
+            k = rng.randrange(len(entries))
+            if "arguments" in entries[k]:
+                entries[k]["command"] = "gcc -c other.c -Iother"
         return {"tree": tree, "cwd": cwd, "rootdir": rootdir, "entries": entries}
 
     def exhaustive(self):
@@ -337,13 +356,14 @@ class C13(Check):
 
     def real_entries(self, case, base):
         out = []
+        sub = lambda x: self.subst(x, base) if isinstance(x, str) else x
         for e in case["entries"]:
+            if not isinstance(e, dict):
+                out.append(sub(e))
+                continue
             r = {}
             for k, v in e.items():
-                if isinstance(v, list):
-                    r[k] = [self.subst(t, base) for t in v]
-                else:
-                    r[k] = self.subst(v, base)
+                r[k] = [sub(t) for t in v] if isinstance(v, list) else sub(v)
             out.append(r)
         return out
 
@@ -353,7 +373,25 @@ class C13(Check):
             return s.replace(b, BTAG, 1)
         return s
 
+    @staticmethod
+    def schema_ok(e):
+        """The part of compilation-database.schema that concerns one item (types; arguments or command required)."""
+        return C13.types_ok(e) and ("arguments" in e or "command" in e)
+
+    @staticmethod
+    def types_ok(e):
+        if not isinstance(e, dict):
+            return False
+        for k in ("directory", "file", "command", "output"):
+            if k in e and not isinstance(e[k], str):
+                return False
+        if "arguments" in e and not (isinstance(e["arguments"], list) and all(isinstance(t, str) for t in e["arguments"])):
+            return False
+        return True
+
     def argv_of(self, e):
+        if not self.types_ok(e):
+            return None
         if "arguments" in e:
             return e["arguments"]
         if "command" in e:
@@ -372,6 +410,9 @@ class C13(Check):
         cwd = "/" + "/".join(bcomps + list(case["cwd"]))
         es = []
         for e in self.real_entries(case, base):
+            if not self.schema_ok(e):
+                es.append([[], [], []])        # the model's "object rejected by the schema"
+                continue
             d = [e["directory"].encode()] if "directory" in e else []
             f = [e["file"].encode()] if "file" in e else []
             a = self.argv_of(e)
@@ -601,6 +642,8 @@ class C13(Check):
         if ia[0] != "Ok" or not ia[1]:
             return False
         for e in case["entries"]:
+            if not self.schema_ok(e):
+                continue
             d = e.get("directory")
             argv = self.argv_of(e) or []
             rel_inc = any((t.startswith("-I") and len(t) > 2 and not t[2:].startswith(("/", BTAG))) for t in argv) or \
@@ -622,7 +665,7 @@ class C13(Check):
         c["entries"] = ents
         # try to drop arguments of each entry
         for k, e in enumerate(list(c["entries"])):
-            if "arguments" in e and len(e["arguments"]) > 1:
+            if self.schema_ok(e) and "arguments" in e and len(e["arguments"]) > 1:
                 head = e["arguments"][:1]
                 rest = common.shrink_list(e["arguments"][1:], lambda a: still_fails(
                     {**c, "entries": c["entries"][:k] + [{**e, "arguments": head + a}] + c["entries"][k + 1:]}))
@@ -641,6 +684,9 @@ class C13(Check):
             d["entries_per_case"][n] = d["entries_per_case"].get(n, 0) + 1
             for e in c["entries"]:
                 d["entries"] += 1
+                if not self.types_ok(e):
+                    d["schema_type_error"] = d.get("schema_type_error", 0) + 1
+                    continue
                 dr = e.get("directory")
                 d["dir_absent" if dr is None else ("dir_absolute" if dr.startswith(("/", BTAG)) else "dir_relative")] += 1
                 f = e.get("file")
